@@ -293,4 +293,58 @@ example : ([3, -1, 2] : List Rat).length = 3 ∧ 0 < sum [3, -1, 2] := by decide
 theorem choice_negative_total_counterexample :
     choice (normInt 1) 1 (some [-1]) = .error .stopIteration := by decide +kernel
 
+/-! ## Phase 4 (continued): error paths -/
+
+/-- **`choice_error_state`: exactly which error paths consume a draw.**  For every generator, sequence
+length and weights argument, a `choice` call either answers `ValueError` — precisely when the weights
+have the wrong length or total zero — and then the generator is untouched (rejected before the draw);
+or (success, `IndexError` on an empty sequence, bare `StopIteration` when nothing is found) exactly one
+uniform has been consumed and the gaussian buffer is unchanged -/
+theorem choice_error_state (g : Gen) (n : Nat) (w : Option (List Rat)) :
+    ((stepE g (.choice n w)).2 = .err .valueError ∧ (stepE g (.choice n w)).1 = g ∧
+        ∃ ws, w = some ws ∧ ((ws ≠ [] ∧ ws.length ≠ n) ∨ sum ws = 0)) ∨
+    ((stepE g (.choice n w)).2 ≠ .err .valueError ∧ (stepE g (.choice n w)).1 = { g with s := next g.s }) :=
+  choice_error_state' g n w
+
+/-- the same for `choicew` (its errors are exactly `choice`'s) -/
+theorem choicew_error_state (g : Gen) (n : Nat) (w : Option (List Rat)) :
+    ((stepE g (.choicew n w)).2 = .err .valueError ∧ (stepE g (.choicew n w)).1 = g ∧
+        ∃ ws, w = some ws ∧ ((ws ≠ [] ∧ ws.length ≠ n) ∨ sum ws = 0)) ∨
+    ((stepE g (.choicew n w)).2 ≠ .err .valueError ∧ (stepE g (.choicew n w)).1 = { g with s := next g.s }) :=
+  choicew_error_state' g n w
+
+/-- `choicew` has no error of its own: `1/len(seq)` and `weights[i]` are never reached with bad arguments -/
+theorem choicew_no_own_error (s n : Nat) (w : Option (List Rat)) (e : Err) (h : choicew s n w = .error e) :
+    e ≠ .zeroDivision := choicew_no_own_error' s n w e h
+
+/-- the exact semantics differs from the phase-1 `step` only on calls that end in `StopIteration` -/
+theorem stepE_eq_step (g : Gen) (o : Op) (h : (stepE g o).2 ≠ .err .stopIteration) : stepE g o = step g o :=
+  stepE_eq_step' g o h
+
+/-- both branches of `choice_error_state` occur: zero total is rejected without a draw, a negative total
+ends in StopIteration after the draw -/
+example : (stepE { s := 1 } (.choice 2 (some [0, 0]))).1.s = 1 ∧
+    (stepE { s := 1 } (.choice 1 (some [-1]))).1.s = next 1 := by decide +kernel
+
+/-- frame / purity for the exact semantics (`f = stepE` is what the driver runs; `f = step` gives `frame_calls`):
+with failing calls, re-seeding and pickling anywhere in the history, the outputs of object `i` under any
+interleaving equal those of its own calls alone — the stream position after an error is part of the object's own state -/
+theorem frame_calls_exact (f : Gen → Op → Gen × Out) (st : Nat → Inst) (h : List (Nat × Call)) (i : Nat) :
+    ((crunW f st h).filter (·.1 = i)).map (·.2) = crunOneW f (st i) ((h.filter (·.1 = i)).map (·.2)) :=
+  frame_callsW' f st h i
+
+theorem seed_then_history_exact (f : Gen → Op → Gen × Out) (x : Inst) (s : Nat) (ops : List Op) :
+    crunOneW f x (.reseed s :: ops.map .op) = runOneW f { s := s } ops := seed_then_historyW' f x s ops
+
+theorem seed_forgets_past_exact (f : Gen → Op → Gen × Out) (x : Inst) (pre : List Call) (s : Nat) (post : List Call) :
+    crunOneW f x (pre ++ .reseed s :: post) = crunOneW f x pre ++ crunOneW f (fresh s) post :=
+  seed_forgets_pastW' f x pre s post
+
+theorem pickle_restores_seed_exact (f : Gen → Op → Gen × Out) (s : Nat) (ops : List Op) (post : List Call) :
+    crunOneW f (fresh s) (ops.map .op ++ .repickle :: post)
+      = runOneW f { s := s } ops ++ crunOneW f (fresh s) post := pickle_restores_seedW' f s ops post
+
+/-- the parametrised runner instantiated with `step` is the phase-4 runner -/
+theorem crunW_step (st : Nat → Inst) (h : List (Nat × Call)) : crunW step st h = crun st h := crunW_step' st h
+
 end Coba.C05
